@@ -720,3 +720,8 @@ package rlwe
 //@   ensures implies(isnil(err), len(opOut.Value[0].Coeffs) == ite(lin <= lout, lin, lout) && len(opOut.Value[1].Coeffs) == ite(lin <= lout, lin, lout))
 //@   ensures implies(isnil(err), val(opOut.Value[0]) == uf_autom(old(val(ctIn.Value[0])) + uf_gp0(old(val(ctIn.Value[1])), g), galEl) && val(opOut.Value[1]) == uf_autom(uf_gp1(old(val(ctIn.Value[1])), g), galEl))
 //@   ensures implies(isnil(err), iff(opOut.MetaData.CiphertextMetaData.IsNTT, old(ctIn.MetaData.CiphertextMetaData.IsNTT)) && sameval(opOut.MetaData.PlaintextMetaData.Scale, old(ctIn.MetaData.PlaintextMetaData.Scale)))
+
+//@ afunc AddPolyTimesGadgetVectorToGadgetCiphertext
+//@   trusted opaque at the abstract level (the plaintext times the gadget vector is added to the rows: digit arithmetic); the plaintext must be in the NTT domain and in Montgomery form; writes the gadget ciphertexts and the buffer (which may be the plaintext itself)
+//@   requires isntt(pt) && mexp(pt) == 1
+//@   assigns buff
